@@ -80,30 +80,53 @@ Definition aug_args (ia ga : cfg) : string -> cfg :=
   env_of [("intensity_aug", ia); ("geometric_aug", ga)] get_aug_config_defaults.
 Definition names_arg (l : list string) : cfg := VList (map VStr l).
 
+(* The body of the geometric loop as a function of (the list being iterated, the
+   state, the current name).  The repaired source reads the list inside the loop
+   ("switch off only the affine parameters that are not named anywhere in the
+   list"), so the translator lambda-lifts it with the list as an extra argument;
+   the pinned source does not read it.  Both shapes are accepted here. *)
+Definition geo_body : cfg -> cfg -> cfg -> res cfg :=
+  ltac:(let t := type of get_aug_config__for_geometric_aug in
+        lazymatch t with
+        | cfg -> cfg -> cfg -> res cfg => exact get_aug_config__for_geometric_aug
+        | cfg -> cfg -> res cfg => exact (fun _ : cfg => get_aug_config__for_geometric_aug)
+        end).
+
+(* one loop iteration, for the geometric list P *)
 Definition int_step (s : cfg) (n : string) := get_aug_config__for_intensity_aug s (VStr n).
-Definition geo_step (s : cfg) (n : string) := get_aug_config__for_geometric_aug s (VStr n).
-Definition aug_step (s : cfg) (n : string) : res cfg :=
-  if mem_str n INTENSITY then int_step s n else geo_step s n.
+Definition geo_step (P : list string) (s : cfg) (n : string) := geo_body (names_arg P) s (VStr n).
+Definition aug_step (P : list string) (s : cfg) (n : string) : res cfg :=
+  if mem_str n INTENSITY then int_step s n else geo_step P s n.
 Definition aug_enabled (n : string) (s : cfg) : bool :=
   if mem_str n INTENSITY then int_enabled n s else geo_enabled n s.
 Definition aug_inv (s : cfg) (seen : list string) : bool :=
   forallb (fun n => aug_enabled n s) seen &&& untouched s.
 
-Definition all_true (_ : list string) : bool := true.
 (* selector of F12: the geometric list names two different affine presets *)
 Definition selector_F12 (gl : list string) : bool :=
-  Nat.leb 2 (List.length (filter (fun a => mem_str a gl) AFFINE)).
-Definition allowed_partial (seen : list string) : bool := negb (selector_F12 seen).
+  Nat.leb 2 (List.length (canon AFFINE gl)).
 
-Definition aug_R_full := explore aug_step ALL all_true (200 * 200) [] [(aug_init, [])].
-Definition aug_R_partial := explore aug_step ALL allowed_partial (200 * 200) [] [(aug_init, [])].
+(* The loop body depends on the list only through the affine names it contains
+   (geo_body_param below), so a run on the list gl is a run of the machine
+   `aug_step P` with P = canon AFFINE gl, one of the 8 sublists of AFFINE, on
+   names whose affine part lies inside P. *)
+Definition AFFINE_SETS : list (list string) :=
+  [[]; ["rotation"]; ["scale"]; ["translate"]; ["rotation"; "scale"]; ["rotation"; "translate"];
+   ["scale"; "translate"]; ["rotation"; "scale"; "translate"]].
+Definition AFFINE_SMALL : list (list string) := filter (fun P => Nat.leb (List.length P) 1) AFFINE_SETS.
+
+Definition allowed_for (P seen : list string) : bool :=
+  forallb (fun a => mem_str a P) (canon AFFINE seen).
+
+Definition aug_R (P : list string) : list st :=
+  explore (aug_step P) ALL (allowed_for P) (200 * 200) [] [(aug_init, [])].
 
 (* status of clause (c): the unbounded check (finite reachability, sound for all
    lists) and the bounded exhaustive one (all ordered lists of distinct
    geometric names up to length 4) *)
-Definition aug_check (allowed : list string -> bool) (R : list st) : bool :=
-  closed aug_step ALL aug_inv allowed R &&& st_mem (aug_init, []) R.
-Definition aug_geo_full_b : bool := aug_check all_true aug_R_full.
+Definition aug_check (P : list string) (R : list st) : bool :=
+  closed (aug_step P) ALL aug_inv (allowed_for P) R &&& st_mem (aug_init, []) R.
+Definition aug_geo_full_b : bool := forallb (fun P => aug_check P (aug_R P)) AFFINE_SETS.
 
 Definition aug_ok_b (il gl : list string) : bool :=
   match get_aug_config (aug_args (names_arg il) (names_arg gl)) with
@@ -117,21 +140,47 @@ Definition aug_geo_cex : list string :=
 Lemma aug_unfold_gen : forall xs ys : list cfg,
   get_aug_config (aug_args (VList xs) (VList ys)) =
   bind (fold_res get_aug_config__for_intensity_aug xs aug_init)
-       (fun s1 => fold_res get_aug_config__for_geometric_aug ys s1).
+       (fun s1 => fold_res (geo_body (VList ys)) ys s1).
 Proof.
   intros xs ys.
   cbv -[fold_res get_aug_config__for_intensity_aug get_aug_config__for_geometric_aug].
   destruct (fold_res get_aug_config__for_intensity_aug xs _) as [s1|e]; [|reflexivity].
-  destruct (fold_res get_aug_config__for_geometric_aug ys s1) as [s2|e]; reflexivity.
+  destruct (fold_res _ ys s1) as [s2|e]; reflexivity.
 Qed.
 Print Assumptions aug_unfold_gen.
 
 Lemma aug_unfold : forall il gl,
   get_aug_config (aug_args (names_arg il) (names_arg gl)) =
   bind (fold_res get_aug_config__for_intensity_aug (map VStr il) aug_init)
-       (fun s1 => fold_res get_aug_config__for_geometric_aug (map VStr gl) s1).
+       (fun s1 => fold_res (geo_body (names_arg gl)) (map VStr gl) s1).
 Proof. intros. apply aug_unfold_gen. Qed.
 Print Assumptions aug_unfold.
+
+Lemma contains_names : forall a l, existsb (cfg_eqb (VStr a)) (map VStr l) = mem_str a l.
+Proof. intros a l. unfold mem_str. induction l as [|x r IH]; cbn [existsb map]; [reflexivity|]. rewrite IH. reflexivity. Qed.
+Print Assumptions contains_names.
+
+(* the loop body reads the list only through `"rotation" / "scale" / "translate" in list` *)
+Lemma geo_body_param : forall gl s n,
+  geo_body (names_arg gl) s n = geo_body (names_arg (canon AFFINE gl)) s n.
+Proof.
+  intros gl s n. unfold geo_body.
+  first
+    [ reflexivity
+    | assert (forall a, In a AFFINE ->
+                existsb (cfg_eqb (VStr a)) (map VStr (canon AFFINE gl)) = existsb (cfg_eqb (VStr a)) (map VStr gl)) as H
+        by (intros a Ia; rewrite !contains_names; apply mem_canon; exact Ia);
+      pose proof (H "rotation" (or_introl eq_refl)) as H1;
+      pose proof (H "scale" (or_intror (or_introl eq_refl))) as H2;
+      pose proof (H "translate" (or_intror (or_intror (or_introl eq_refl)))) as H3;
+      clear H;
+      unfold get_aug_config__for_geometric_aug, names_arg; cbn [py_contains];
+      set (x1 := existsb (cfg_eqb (VStr "rotation")) (map VStr (canon AFFINE gl))) in *;
+      set (x2 := existsb (cfg_eqb (VStr "scale")) (map VStr (canon AFFINE gl))) in *;
+      set (x3 := existsb (cfg_eqb (VStr "translate")) (map VStr (canon AFFINE gl))) in *;
+      clearbody x1 x2 x3; subst x1 x2 x3; reflexivity ].
+Qed.
+Print Assumptions geo_body_param.
 
 Lemma fold_res_ext_in : forall {S A} (f g : S -> A -> res S) l s,
   (forall s x, In x l -> f s x = g s x) -> fold_res f l s = fold_res g l s.
@@ -144,13 +193,15 @@ Print Assumptions fold_res_ext_in.
 
 Lemma aug_fold : forall il gl,
   Forall (fun n => In n INTENSITY) il -> Forall (fun n => In n GEOMETRIC) gl ->
-  get_aug_config (aug_args (names_arg il) (names_arg gl)) = fold_names aug_step (il ++ gl)%list aug_init.
+  get_aug_config (aug_args (names_arg il) (names_arg gl)) =
+  fold_names (aug_step (canon AFFINE gl)) (il ++ gl)%list aug_init.
 Proof.
   intros il gl Hi Hg. rewrite aug_unfold. unfold fold_names. rewrite fold_res_app, !fold_res_map.
-  rewrite (fold_res_ext_in (fun s x => get_aug_config__for_intensity_aug s (VStr x)) aug_step il).
-  - destruct (fold_res aug_step il aug_init); simpl; [|reflexivity].
+  rewrite (fold_res_ext_in (fun s x => get_aug_config__for_intensity_aug s (VStr x)) (aug_step (canon AFFINE gl)) il).
+  - destruct (fold_res (aug_step (canon AFFINE gl)) il aug_init); simpl; [|reflexivity].
     rewrite fold_res_map. apply fold_res_ext_in. intros s x I. rewrite Forall_forall in Hg. specialize (Hg x I).
-    unfold aug_step. simpl in Hg.
+    rewrite geo_body_param.
+    unfold aug_step, geo_step. simpl in Hg.
     repeat (destruct Hg as [Hg|Hg]; [subst; reflexivity|]). contradiction.
   - intros s x I. rewrite Forall_forall in Hi. specialize (Hi x I).
     unfold aug_step. simpl in Hi.
@@ -158,55 +209,51 @@ Proof.
 Qed.
 Print Assumptions aug_fold.
 
-Lemma filter_length_mono : forall {A} (p q : A -> bool) l,
-  (forall x, p x = true -> q x = true) -> List.length (filter p l) <= List.length (filter q l).
+Lemma allowed_for_antitone : forall P A n,
+  allowed_for P (canon ALL (n :: A)) = true -> allowed_for P (canon ALL A) = true.
 Proof.
-  induction l as [|a r IH]; intro H; simpl; [lia|]. specialize (IH H).
-  destruct (p a) eqn:P; [rewrite (H a P); simpl; lia | destruct (q a); simpl; lia].
+  unfold allowed_for. intros P A n H. rewrite forallb_forall in *. intros a Ia. apply H.
+  apply canon_In in Ia. destruct Ia as [I1 I2]. apply canon_In in I2. destruct I2 as [I2 I3].
+  apply canon_In. split; [exact I1|]. apply canon_In. split; [exact I2 | right; exact I3].
 Qed.
-Print Assumptions filter_length_mono.
+Print Assumptions allowed_for_antitone.
 
-Lemma allowed_partial_antitone : forall A n,
-  allowed_partial (canon ALL (n :: A)) = true -> allowed_partial (canon ALL A) = true.
+(* the names of il ++ gl lie inside the machine of gl's affine set *)
+Lemma allowed_for_own : forall il gl, Forall (fun n => In n INTENSITY) il ->
+  allowed_for (canon AFFINE gl) (canon ALL (il ++ gl)%list) = true.
 Proof.
-  unfold allowed_partial, selector_F12. intros A n H.
-  apply negb_true_iff in H. apply negb_true_iff. apply Nat.leb_gt in H. apply Nat.leb_gt.
-  eapply Nat.le_lt_trans; [|exact H]. apply filter_length_mono.
-  intros x Hx. apply mem_str_In in Hx. apply canon_In in Hx. destruct Hx as [H1 H2].
-  apply mem_str_In. apply canon_In. split; [exact H1 | right; exact H2].
-Qed.
-Print Assumptions allowed_partial_antitone.
-
-(* on a list il ++ gl the selector only sees gl *)
-Lemma selector_app : forall il gl, Forall (fun n => In n INTENSITY) il ->
-  selector_F12 (canon ALL (il ++ gl)%list) = selector_F12 gl.
-Proof.
-  intros il gl Hi. unfold selector_F12. f_equal. f_equal. apply filter_ext_in. intros a Ha.
-  assert (In a ALL) as HA by (simpl in Ha; simpl; tauto).
-  rewrite (mem_canon ALL (il ++ gl)%list a HA). unfold mem_str. rewrite existsb_app.
-  fold (mem_str a il). fold (mem_str a gl).
-  replace (mem_str a il) with false; [reflexivity|]. symmetry. apply mem_str_false. intro I.
-  rewrite Forall_forall in Hi. specialize (Hi a I). simpl in Ha, Hi.
-  repeat (destruct Ha as [Ha|Ha]; [subst; repeat (destruct Hi as [Hi|Hi]; [discriminate Hi|]); contradiction|]).
+  intros il gl Hi. unfold allowed_for. apply forallb_forall. intros a Ia.
+  apply canon_In in Ia. destruct Ia as [I1 I2]. apply canon_In in I2. destruct I2 as [_ I3].
+  apply mem_str_In. apply canon_In. split; [exact I1|].
+  apply in_app_or in I3. destruct I3 as [I3|I3]; [|exact I3]. exfalso.
+  rewrite Forall_forall in Hi. specialize (Hi a I3). simpl in I1, Hi.
+  repeat (destruct I1 as [I1|I1]; [subst; repeat (destruct Hi as [Hi|Hi]; [discriminate Hi|]); contradiction|]).
   contradiction.
 Qed.
-Print Assumptions selector_app.
+Print Assumptions allowed_for_own.
 
-Lemma aug_from_reach : forall allowed R,
-  aug_check allowed R = true ->
-  (forall A n, allowed (canon ALL (n :: A)) = true -> allowed (canon ALL A) = true) ->
-  forall il gl,
+Lemma canon_affine_cases : forall gl, In (canon AFFINE gl) AFFINE_SETS.
+Proof.
+  intro gl. unfold canon, AFFINE. cbn [filter].
+  destruct (mem_str "rotation" gl), (mem_str "scale" gl), (mem_str "translate" gl); simpl; tauto.
+Qed.
+Print Assumptions canon_affine_cases.
+
+Lemma aug_from_reach : forall P R, aug_check P R = true ->
+  forall il gl, canon AFFINE gl = P ->
   Forall (fun n => In n INTENSITY) il -> Forall (fun n => In n GEOMETRIC) gl ->
-  allowed (canon ALL (il ++ gl)%list) = true ->
   exists s, get_aug_config (aug_args (names_arg il) (names_arg gl)) = Ok s /\
             (forall n, In n il -> int_enabled n s = true) /\
             (forall n, In n gl -> geo_enabled n s = true) /\
             untouched s = true.
 Proof.
-  intros allowed R C Anti il gl Hi Hg Al. unfold aug_check in C. apply andl_true in C. destruct C as [C I0].
+  intros P R C il gl EP Hi Hg. unfold aug_check in C. apply andl_true in C. destruct C as [C I0].
   assert (Forall (fun n => In n ALL) (il ++ gl)%list) as F.
   { apply Forall_app. split; eapply Forall_impl; try eassumption; intros a Ha; unfold ALL; apply in_or_app; tauto. }
-  destruct (reach_sound aug_step ALL aug_inv allowed R aug_init C I0 Anti (il ++ gl)%list F Al) as [s [Fs Is]].
+  assert (allowed_for P (canon ALL (il ++ gl)%list) = true) as Al by (rewrite <- EP; apply allowed_for_own; exact Hi).
+  destruct (reach_sound (aug_step P) ALL aug_inv (allowed_for P) R aug_init C I0 (allowed_for_antitone P)
+                        (il ++ gl)%list F Al) as [s [Fs Is]].
+  rewrite <- EP in Fs.
   exists s. rewrite aug_fold by assumption. split; [exact Fs|].
   unfold aug_inv in Is. apply andl_true in Is. destruct Is as [En Un]. rewrite forallb_forall in En.
   repeat split; [| |exact Un].
@@ -237,15 +284,17 @@ Theorem aug_lists_partial : forall il gl,
             untouched s = true.
 Proof.
   intros il gl Hi Hg Sel.
-  apply (aug_from_reach allowed_partial aug_R_partial); try assumption.
-  - vm_compute. reflexivity.
-  - exact allowed_partial_antitone.
-  - unfold allowed_partial. rewrite selector_app by assumption. rewrite Sel. reflexivity.
+  assert (forallb (fun P => aug_check P (aug_R P)) AFFINE_SMALL = true) as B by (vm_compute; reflexivity).
+  rewrite forallb_forall in B.
+  assert (In (canon AFFINE gl) AFFINE_SMALL) as I.
+  { unfold AFFINE_SMALL. apply filter_In. split; [apply canon_affine_cases|].
+    unfold selector_F12 in Sel. apply Nat.leb_gt in Sel. apply Nat.leb_le. lia. }
+  exact (aug_from_reach _ _ (B _ I) il gl eq_refl Hi Hg).
 Qed.
 Print Assumptions aug_lists_partial.
 
 (* (c), the full clause — live after a repair of F12 *)
-Theorem aug_lists_full : aug_check all_true aug_R_full = true ->
+Theorem aug_lists_full : forallb (fun P => aug_check P (aug_R P)) AFFINE_SETS = true ->   (* = aug_geo_full_b *)
   forall il gl,
   Forall (fun n => In n INTENSITY) il -> Forall (fun n => In n GEOMETRIC) gl ->
   exists s, get_aug_config (aug_args (names_arg il) (names_arg gl)) = Ok s /\
@@ -254,7 +303,8 @@ Theorem aug_lists_full : aug_check all_true aug_R_full = true ->
             untouched s = true.
 Proof.
   intros B il gl Hi Hg.
-  exact (aug_from_reach all_true aug_R_full B (fun _ _ _ => eq_refl) il gl Hi Hg eq_refl).
+  rewrite forallb_forall in B.
+  exact (aug_from_reach _ _ (B _ (canon_affine_cases gl)) il gl eq_refl Hi Hg).
 Qed.
 Print Assumptions aug_lists_full.
 
